@@ -12,7 +12,7 @@ LEVEL = "other"
 ITEM_CAP = {"quick": 400, "thorough": 3000}
 FUNCS = ["qlasskit.algorithms.grover.Grover.{__init__,output_qubits,decode_output}", "qlasskit.algorithms.qalgorithm.oraclize", "qlasskit.qcircuit.qcircuit.QCircuit.{__add__,repeat,mctrl}", "qlasskit.types.interpret_as_qtype"]
 BOUNDS = {
-    "quick": "symbolic oracle (whole truth table = solver variables, |solutions| = M): n=2 M=1, n=3 M in {1,2}; exact integer simulation of one table per (n, M) for n=2..6, M=1..N/4 (default iteration count); 24 compiled predicates in 2-5 search bits (3 syntactic variants per solution set) for the oracle contract and pairwise equivalence; Grover(g, y) targets incl. falsy ones; repeated construction from one QlassF; decode_output for bool/Qint/Tuple/Qlist arguments",
+    "quick": "symbolic oracle (whole truth table = solver variables, |solutions| = M): n=2 M=1, n=3 M in {1,2}; exact integer simulation of one table per (n, M) for n=2..6, M=1..N/4 (default iteration count); 24 compiled predicates in 2-5 search bits (3 syntactic variants per solution set) for the oracle contract and pairwise equivalence; Grover(g, y) targets incl. falsy ones; repeated construction from one QlassF; decode_output for bool/Qint/Tuple/Qlist arguments (tuples nested up to three deep)",
     "thorough": "adds the symbolic oracle for n=4, M in {1,2} (bit-vector amplitudes of width hc/2+3)",
 }
 OUTSIDE = "symbolic oracle for n=4 with M in {3,4} and n >= 5 (solver budget): there the claim rests on the single-table exact simulations and the contract half; predicates are enumerated"
@@ -92,7 +92,10 @@ def make_items(tier, seed):
             items.append({"ob": "endtoend", "src": "def pred(x: %s) -> bool:\n    return %s\n" % (arg, src), "opt": opt})
     for arg, src in [("Qmatrix[bool, 2, 2]", "x[0][0] and x[1][1] and not x[0][1] and not x[1][0]"), ("Tuple[Qint[2], Tuple[bool, Qint[2]]]", "x[0] == 1 and x[1][0] and x[1][1] == 2"), ("Qlist[Tuple[bool, Qint[2]], 2]", "x[0][0] and x[1][1] == 3 and not x[1][0] and x[0][1] == 0")]:
         items.append({"ob": "decode", "src": "def pred(x: %s) -> bool:\n    return %s\n" % (arg, src)})
-    for arg, src in [("Qint[3]", "x == 5"), ("Tuple[Qint[2], bool]", "x[0] == 2 and x[1]"), ("Qlist[bool, 3]", "all(x)"), ("bool", "x"), ("Tuple[Tuple[bool, Qint[2]], bool]", "x[0][0] and x[1] and x[0][1] == 1"), ("Qchar", "x == 'a'")]:
+    for arg, src in [("Qint[3]", "x == 5"), ("Tuple[Qint[2], bool]", "x[0] == 2 and x[1]"), ("Qlist[bool, 3]", "all(x)"), ("bool", "x"), ("Tuple[Tuple[bool, Qint[2]], bool]", "x[0][0] and x[1] and x[0][1] == 1"), ("Qchar", "x == 'a'"),
+                     # tuples nested three deep (sizes are computed recursively by interpret_as_qtype)
+                     ("Tuple[Tuple[Tuple[bool, bool], bool], Qint[2]]", "x[0][0][1] and x[0][1] and x[1] == 1 and not x[0][0][0]"),
+                     ("Tuple[bool, Tuple[Qint[2], Tuple[bool, bool]]]", "x[0] and x[1][0] == 2 and x[1][1][0] and not x[1][1][1]")]:
         items.append({"ob": "decode", "src": "def pred(x: %s) -> bool:\n    return %s\n" % (arg, src)})
     return items
 
